@@ -41,6 +41,7 @@ def case_strategy(draw, tier):
                  "steps": draw(st.integers(1, 40 if mobile <= 10 else 8)),
                  "seed": draw(gen.SEEDS),
                  "second_round": draw(st.sampled_from([None, None, "start", "end"])),
+                 "repair": draw(st.integers(0, 5)) == 0 and mobile >= 3,
                  "seed2": draw(gen.SEEDS)})
     return pair
 
@@ -53,6 +54,32 @@ def run_alignment(case, start, end):
     deform = None if case["deform"] is None else tuple(case["deform"])
     with step_cap():
         ali.align_molecules(restr, deform, case["ignore_h"])
+    return ali
+
+
+def repaired_alignment(case, sspec, espec, label):
+    """Error-then-continue: the mobile molecule's topology lacks one bond, the alignment refuses it (disconnected),
+    the bond is added in place through AtomTop.connect and the SAME Alignment object is run again."""
+    start_mobile = gen.spec_n(sspec) < gen.spec_n(espec)
+    mspec = sspec if start_mobile else espec
+    drop = mspec["edges"][case["seed"] % len(mspec["edges"])]
+    broken = dict(mspec, edges=[e for e in mspec["edges"] if e != drop])
+    start = build_molecule(broken if start_mobile else sspec)
+    end = build_molecule(espec if start_mobile else broken)
+    ali = Alignment(start=start, end=end)
+    ali.STEPS_FACTOR = case["steps"]
+    restr = None if case.get("restr_none") else [tuple(r) for r in case["restr"]]
+    deform = None if case["deform"] is None else tuple(case["deform"])
+    try:
+        with env.quiet(), step_cap():
+            ali.align_molecules(restr, deform, case["ignore_h"])
+    except Exception:      # noqa: BLE001   (IOError: the molecule is not connected)
+        pass
+    top = (ali.start if start_mobile else ali.end).molecule_top
+    lib("connect", top[drop[0]].connect, top[drop[1]])
+    np.random.seed(case["seed"])
+    with step_cap():
+        lib("align-after-repair", ali.align_molecules, restr, deform, case["ignore_h"])
     return ali
 
 
@@ -109,21 +136,25 @@ def check(case):
     names_e = [a.name for a in given_e]
     label = "start %d atoms, end %d atoms, deform %r, ignore_h %r, %d restraints" % (
         len(s0), len(e0), case["deform"], case["ignore_h"], len(case["restr"]))
-    ali = lib("align", run_alignment, case, given_s, given_e)
+    if case.get("repair"):
+        ali = repaired_alignment(case, sspec, espec, label)
+        given_s, given_e = build_molecule(sspec), build_molecule(espec)
+    else:
+        ali = lib("align", run_alignment, case, given_s, given_e)
     if not (np.array_equal(positions(given_s), s0) and np.array_equal(positions(given_e), e0)):
         raise PropertyViolation("caller-objects", "%s: the Molecule objects supplied by the caller were modified" % label)
     if [a.name for a in ali.start] != names_s or [a.name for a in ali.end] != names_e:
         raise PropertyViolation("names-order", "%s: atom names/order changed" % label)
     deformed, start_mobile = judge(case, s0, e0, ali, label)
     # deterministic: fresh objects, same seed -> bit-identical
-    ali2 = lib("align-again", run_alignment, case, build_molecule(sspec), build_molecule(espec))
+    ali2 = ali if case.get("repair") else lib("align-again", run_alignment, case, build_molecule(sspec), build_molecule(espec))
     if not (np.array_equal(positions(ali.start), positions(ali2.start)) and
             np.array_equal(positions(ali.end), positions(ali2.end))):
         raise PropertyViolation("deterministic", "%s: repeating the alignment with the same seed gives different "
                                 "coordinates" % label)
     # a second alignment on the same object after re-assigning one molecule with another
     # conformation of the same species (documented use of the setters)
-    second = case.get("second_round")
+    second = None if case.get("repair") else case.get("second_round")
     if second:
         rng = np.random.default_rng(case["seed2"])
         spec = sspec if second == "start" else espec
@@ -158,7 +189,7 @@ def check(case):
         surv = 0
     nt = mobile_n >= 3 and (deformed or surv > 0)
     return {"nontrivial": nt,
-            "classes": ["far" if case.get("far") else "near-origin", "relation:" + case["relation"], "deform:%s" % ("default" if case["deform"] is None else
+            "classes": ["far" if case.get("far") else "near-origin", "repaired-topology" if case.get("repair") else "topology-as-loaded", "relation:" + case["relation"], "deform:%s" % ("default" if case["deform"] is None else
                                                                        "".join(map(str, sorted(case["deform"])))),
                         "ignore_h" if case["ignore_h"] else "keep_h", "restraints" if surv else "no-restraints",
                         "deformed" if deformed else "rigid", "second-round" if second else "single-round",
